@@ -1,5 +1,6 @@
 import GdcVerif.Model.Rle
 import GdcVerif.Spec.PackBits
+import GdcVerif.Lemmas.RleGeom
 /-! Helper lemmas and the proofs behind `Props/C01.lean`. -/
 namespace Rle
 
@@ -16,26 +17,249 @@ def Info.Fits32 (i : Info) : Prop := 2 * i.nativeLen + 100 < 4294967296
 instance (i : Info) : Decidable i.Accepted := by unfold Info.Accepted; infer_instance
 instance (i : Info) : Decidable i.Fits32 := by unfold Info.Fits32; infer_instance
 
+/-- what `Accepted` gives, in the vocabulary of `RleGeom` -/
+structure Info.Geo (i : Info) : Prop where
+  hba : i.bytesAllocated = 1 ∨ i.bytesAllocated = 2 ∨ i.bytesAllocated = 4
+  hspp : i.spp = 1 ∨ i.spp = 3
+  hpl : i.planar = 0 ∨ i.planar = 1
+  hpc : 1 ≤ i.pixelCount
+  hnat : i.nativeLen = i.bytesAllocated * i.spp * i.pixelCount
+
+theorem Info.Accepted.geo {i : Info} (hi : i.Accepted) : i.Geo := by
+  obtain ⟨hb, hspp, hpl, hw, hh⟩ := hi
+  refine ⟨?_, hspp, hpl, Nat.mul_pos hw hh, ?_⟩
+  · unfold Info.bytesAllocated
+    rcases hb with h | h | h <;> rw [h] <;> simp
+  · simp only [Info.nativeLen, Info.pixelCount, Nat.mul_assoc]
+
+theorem segStart_eq (i : Info) (s : Nat) :
+    i.segStart s = gStart i.bytesAllocated i.pixelCount i.planar s := rfl
+theorem segStride_eq (i : Info) :
+    i.segStride = gStride i.bytesAllocated i.spp i.planar := rfl
+
+/-- the byte plane of segment `t` -/
+def planeP (i : Info) (src : Array Byte) (t : Nat) : List Byte :=
+  (List.range i.pixelCount).map fun q => cell src (i.segStart t + q * i.segStride)
+
+/-- the chunks (segment + pad) of the encoded frame -/
+def chunksOf (i : Info) (src : Array Byte) : List (List Byte) :=
+  (List.range' 0 i.numberOfSegments).map fun t => chunkOf (planeP i src t)
+
+theorem Info.Geo.nseg_le {i : Info} (g : i.Geo) : i.numberOfSegments ≤ 12 := by
+  unfold Info.numberOfSegments
+  rcases g.hba with h | h | h <;> rcases g.hspp with h' | h' <;> rw [h, h'] <;> omega
+
+theorem Info.Geo.nseg_pos {i : Info} (g : i.Geo) : 1 ≤ i.numberOfSegments := by
+  unfold Info.numberOfSegments
+  rcases g.hba with h | h | h <;> rcases g.hspp with h' | h' <;> rw [h, h'] <;> omega
+
+theorem Info.Geo.inb {i : Info} (g : i.Geo) {t q : Nat} (ht : t < i.numberOfSegments)
+    (hq : q < i.pixelCount) : i.segStart t + q * i.segStride < i.nativeLen := by
+  rw [g.hnat, segStart_eq, segStride_eq]
+  exact geo_inb _ _ _ _ _ _ g.hba g.hspp g.hpl ht hq
+
+theorem encodeFrame_chunks (i : Info) (g : i.Geo) (src : Array Byte)
+    (hlen : src.size = i.nativeLen) : encodeFrame i src = .ok (mkStream (chunksOf i src)) := by
+  have hn := g.nseg_le
+  have hpos : 1 ≤ i.nativeLen := by
+    rw [g.hnat]; exact Nat.mul_pos g.nseg_pos g.hpc
+  apply encodeFrame_eq i src (planeP i src) (by omega) (by omega)
+  intro t ht
+  exact readPlane_eq src _ _ _ (fun k hk => by rw [hlen]; exact g.inb ht hk)
+
+
+theorem chunksOf_length (i : Info) (src : Array Byte) :
+    (chunksOf i src).length = i.numberOfSegments := by simp [chunksOf]
+
+theorem chunksOf_get (i : Info) (src : Array Byte) (k : Nat) (hk : k < (chunksOf i src).length) :
+    (chunksOf i src)[k] = chunkOf (planeP i src k) := by simp [chunksOf]
+
+theorem planeP_length (i : Info) (src : Array Byte) (t : Nat) :
+    (planeP i src t).length = i.pixelCount := by simp [planeP]
+
+theorem chunkOf_facts (plane : List Byte) (h : 1 ≤ plane.length) :
+    (chunkOf plane).length % 2 = 0 ∧ 2 ≤ (chunkOf plane).length ∧
+      (chunkOf plane).length ≤ 2 * plane.length + 1 := by
+  have henc := (encodeSegment_spec plane).1
+  have h1 := henc.length_le
+  have h2 := padOf_length_le (encodeSegment plane).1
+  refine ⟨chunk_even _, ?_, ?_⟩
+  · rcases henc.shape with ⟨_, hd⟩ | ⟨ho, _⟩
+    · rw [hd] at h; simp at h
+    · simp only [chunkOf, List.length_append]; omega
+  · simp only [chunkOf, List.length_append]; omega
+
+theorem flatten_length_le (L : List (List Byte)) (M : Nat) (hL : ∀ c, c ∈ L → c.length ≤ M) :
+    L.flatten.length ≤ L.length * M := by
+  induction L with
+  | nil => simp
+  | cons c L ih =>
+    have h1 := hL c (by simp)
+    have h2 := ih (fun c hc => hL c (by simp [hc]))
+    simp only [List.flatten_cons, List.length_append, List.length_cons, Nat.add_mul, Nat.one_mul]
+    omega
+
+theorem chunksOf_mem (i : Info) (g : i.Geo) (src : Array Byte) (c : List Byte)
+    (hc : c ∈ chunksOf i src) :
+    c.length % 2 = 0 ∧ 2 ≤ c.length ∧ c.length ≤ 2 * i.pixelCount + 1 := by
+  simp only [chunksOf, List.mem_map] at hc
+  obtain ⟨t, _, rfl⟩ := hc
+  have := chunkOf_facts (planeP i src t) (by rw [planeP_length]; exact g.hpc)
+  rwa [planeP_length] at this
+
+theorem chunksOf_bound (i : Info) (g : i.Geo) (hf : i.Fits32) (src : Array Byte) :
+    64 + (chunksOf i src).flatten.length < 4294967296 := by
+  have h1 := flatten_length_le (chunksOf i src) (2 * i.pixelCount + 1)
+    (fun c hc => (chunksOf_mem i g src c hc).2.2)
+  rw [chunksOf_length] at h1
+  have h2 : i.numberOfSegments * (2 * i.pixelCount + 1) = 2 * i.nativeLen + i.numberOfSegments := by
+    rw [g.hnat, Nat.mul_add, Nat.mul_one, Nat.mul_left_comm]; rfl
+  have := g.nseg_le
+  unfold Info.Fits32 at hf
+  omega
+
+
+theorem Info.Geo.cover {i : Info} (g : i.Geo) {j : Nat} (hj : j < i.nativeLen) :
+    ∃ s q, s < i.numberOfSegments ∧ q < i.pixelCount ∧ i.segStart s + q * i.segStride = j := by
+  rw [g.hnat] at hj
+  simp only [segStart_eq, segStride_eq]
+  rcases g.hpl with h | h <;> rw [h]
+  · exact geo_cover0 _ _ _ _ g.hba g.hspp hj
+  · exact geo_cover1 _ _ _ _ g.hba g.hspp hj
+
+theorem cell_of_lt (a : Array Byte) (j : Nat) (h : j < a.size) : cell a j = a[j] := by
+  simp [cell, h]
+
+theorem cell_of_ge (a : Array Byte) (j : Nat) (h : a.size ≤ j) : cell a j = 0 := by
+  simp [cell, h]
+
+theorem array_eq_of_cell (A B : Array Byte) (hs : A.size = B.size)
+    (h : ∀ j, j < A.size → cell A j = cell B j) : A = B := by
+  apply Array.ext hs
+  intro j h1 h2
+  rw [← cell_of_lt A j h1, ← cell_of_lt B j h2]
+  exact h j h1
+
+theorem cell_append_pad (src : Array Byte) (c : Prop) [Decidable c] (j : Nat) :
+    cell (src ++ (if c then #[0] else #[])) j = cell src j := by
+  unfold cell
+  rw [Array.getElem?_append]
+  split
+  · rfl
+  · next h =>
+    have : src[j]? = none := by simp; omega
+    rw [this]
+    split
+    · by_cases h0 : j - src.size = 0 <;> simp [h0]
+    · simp
+
+theorem decode_chunks (i : Info) (g : i.Geo) (hf : i.Fits32) (src : Array Byte)
+    (hlen : src.size = i.nativeLen) :
+    decodeFrame i (mkStream (chunksOf i src)) =
+      .ok (src ++ (if i.nativeLen % 2 = 1 then #[0] else #[])) := by
+  have hcl := chunksOf_length i src
+  have h1 : 1 ≤ (chunksOf i src).length := by rw [hcl]; exact g.nseg_pos
+  have h15 : (chunksOf i src).length ≤ 15 := by rw [hcl]; have := g.nseg_le; omega
+  have hb := chunksOf_bound i g hf src
+  obtain ⟨offs, hph, hoffs⟩ := parseHeader_stream _ h1 h15 hb
+  have hfs : i.frameSize = i.nativeLen + (if i.nativeLen % 2 = 1 then 1 else 0) := by
+    unfold Info.frameSize; split <;> rename_i h <;> simp [h]
+  have hfs' : i.nativeLen ≤ i.frameSize := by omega
+  obtain ⟨F, hF, hu, hd⟩ := decodeSegments_upd i (cell src) (mkStream (chunksOf i src))
+    (chunksOf i src).length offs (planeP i src) (chunksOf i src).length 0
+    (Array.replicate i.frameSize 0)
+    (by
+      intro t _ ht b hbs
+      have ht' : t < (chunksOf i src).length := by omega
+      rw [segmentSlice_stream _ h15 offs hoffs t ht', chunksOf_get]
+      apply decodeLoop_enc (encodeSegment_spec _).1 _ _ _ _ (padOf_length_le _)
+      · rw [planeP_length]; exact g.hpc
+      · rw [planeP_length, hbs, Array.size_replicate]
+        have := g.inb (t := t) (q := i.pixelCount - 1) (by omega) (by have := g.hpc; omega)
+        omega)
+    (by
+      intro t _ ht q hq
+      rw [planeP_length] at hq
+      refine ⟨by simp [planeP], ?_⟩
+      rw [Array.size_replicate]
+      have := g.inb (t := t) (q := q) (by omega) hq
+      omega)
+  have hFeq : F = src ++ (if i.nativeLen % 2 = 1 then #[0] else #[]) := by
+    apply array_eq_of_cell
+    · rw [hu.1, Array.size_replicate, Array.size_append, hlen, hfs]
+      split <;> simp
+    · intro j hj
+      rw [cell_append_pad]
+      by_cases hjn : j < i.nativeLen
+      · obtain ⟨s, q, hs, hq, he⟩ := g.cover hjn
+        have := hd s (Nat.zero_le _) (by omega) q (by rw [planeP_length]; exact hq)
+        rwa [he] at this
+      · have h0 : cell src j = 0 := cell_of_ge _ _ (by omega)
+        rcases hu.2 j with h | h
+        · rw [h, h0]
+          unfold cell
+          rw [Array.getElem?_replicate]
+          split <;> rfl
+        · exact h
+  unfold decodeFrame
+  have hl : ¬ ((mkStream (chunksOf i src)).length = 0) := by rw [mkStream_length _ h15]; omega
+  simp only [hl, ↓reduceIte, hph, hcl, ne_eq, not_true_eq_false]
+  rw [hcl] at hF
+  rw [hF, hFeq]
+
+
+theorem planeP_eq_planeOf (i : Info) (g : i.Geo) (src : Array Byte) (k : Nat)
+    (hk : k < i.numberOfSegments) :
+    planeP i src k = AnnexG.planeOf src.toList i.bytesAllocated i.spp i.pixelCount i.planar k := by
+  simp only [planeP, AnnexG.planeOf]
+  apply List.map_congr_left
+  intro q _
+  rw [geo_plane _ _ _ _ _ _ g.hba g.hspp g.hpl hk, ← segStart_eq, ← segStride_eq]
+  simp [cell, List.getD_eq_getElem?_getD]
+
 theorem rle_encode_ok' (i : Info) (hi : i.Accepted) (src : Array Byte) (hlen : src.size = i.nativeLen) :
-    ∃ enc, encodeFrame i src = .ok enc := by
-  sorry
+    ∃ enc, encodeFrame i src = .ok enc :=
+  ⟨_, encodeFrame_chunks i hi.geo src hlen⟩
 
 theorem rle_roundtrip' (i : Info) (hi : i.Accepted) (hf : i.Fits32) (src : Array Byte)
     (hlen : src.size = i.nativeLen) :
     ∃ enc, encodeFrame i src = .ok enc ∧
-      decodeFrame i enc = .ok (src ++ (if i.nativeLen % 2 = 1 then #[0] else #[])) := by
-  sorry
+      decodeFrame i enc = .ok (src ++ (if i.nativeLen % 2 = 1 then #[0] else #[])) :=
+  ⟨_, encodeFrame_chunks i hi.geo src hlen, decode_chunks i hi.geo hf src hlen⟩
 
 theorem rle_stream_wf' (i : Info) (hi : i.Accepted) (hf : i.Fits32) (src : Array Byte)
     (hlen : src.size = i.nativeLen) (enc : List Byte) (he : encodeFrame i src = .ok enc) :
     AnnexG.headerOk enc i.numberOfSegments = true := by
-  sorry
+  have g := hi.geo
+  rw [encodeFrame_chunks i g src hlen] at he
+  injection he with he
+  subst he
+  have hcl := chunksOf_length i src
+  have := headerOk_stream (chunksOf i src) (by rw [hcl]; exact g.nseg_pos)
+    (by rw [hcl]; have := g.nseg_le; omega) (chunksOf_bound i g hf src)
+    (fun c hc => ⟨(chunksOf_mem i g src c hc).1, (chunksOf_mem i g src c hc).2.1⟩)
+  rwa [hcl] at this
 
 theorem rle_spec_agrees' (i : Info) (hi : i.Accepted) (hf : i.Fits32) (src : Array Byte)
     (hlen : src.size = i.nativeLen) (enc : List Byte) (he : encodeFrame i src = .ok enc) :
     AnnexG.readPlanes enc i.numberOfSegments i.pixelCount =
       some ((List.range i.numberOfSegments).map
         (AnnexG.planeOf src.toList i.bytesAllocated i.spp i.pixelCount i.planar)) := by
-  sorry
+  have g := hi.geo
+  rw [encodeFrame_chunks i g src hlen] at he
+  injection he with he
+  subst he
+  have hcl := chunksOf_length i src
+  have := readPlanes_stream (chunksOf i src) (by rw [hcl]; exact g.nseg_pos)
+    (by rw [hcl]; have := g.nseg_le; omega) (chunksOf_bound i g hf src)
+    (fun c hc => ⟨(chunksOf_mem i g src c hc).1, (chunksOf_mem i g src c hc).2.1⟩)
+    i.pixelCount (AnnexG.planeOf src.toList i.bytesAllocated i.spp i.pixelCount i.planar)
+    (by
+      intro k hk
+      rw [chunksOf_get, ← planeP_eq_planeOf i g src k (by rwa [hcl] at hk)]
+      have := unpack_enc (encodeSegment_spec (planeP i src k)).1
+        (padOf (encodeSegment (planeP i src k)).1)
+      rwa [planeP_length] at this)
+  rwa [hcl] at this
 
 end Rle
